@@ -585,6 +585,17 @@ def class_pairs():
                                ("element assignment as a value", "boolean s = (v[0] = 3);", "int s = (v[0] = 3);"),
                                ("return", "return (i = 3);", "i = 3; return;"), ("chained", "string s = \"\"; s = i = 3;", "long s = 0L; s = i = 3;")]:
         P.append(("a value of the wrong type through an assignment expression", pos, av % bad_s, av % good_s))
+    # an array literal takes its type from where it is assigned; its elements have the type of its elements
+    al = ("class A { public int[] xs = {1}; public constructor() -> A { } }\nfunction t(int k) -> void { echo(k); }\n"
+          "function r() -> %s { int[] y = {0}; return (y = {7, 8}); }\nfunction main() -> void { int[] y = {0}; A a = new A(); %s echo(r()); }")
+    for pos, rt, bad_s, good_s in [("int initialiser", "int[]", "int x = (y = {1, 2});", "int[] x = (y = {1, 2});"),
+                                   ("string initialiser", "int[]", "string s = (y = {3, 4});", "int[] s = (y = {3, 4});"),
+                                   ("int argument", "int[]", "t(y = {5, 6});", "t((y = {5, 6})[0]);"),
+                                   ("int return", "int", "", None),
+                                   ("member assignment", "int[]", "string s = (a.xs = {1, 2});", "int[] s = (a.xs = {1, 2});"),
+                                   ("element of a literal", "int[]", "string s = {1, 2}[0];", "int s = {1, 2}[0];")]:
+        good = (al % ("int[]", good_s)) if good_s is not None else (al % ("int[]", ""))
+        P.append(("an array literal's type taken for any type", pos, al % (rt, bad_s), good))
     return P
 
 
